@@ -10,6 +10,7 @@ import (
 	"runtime"
 	"sort"
 	"strings"
+	"sync"
 	"testing"
 	"time"
 
@@ -26,6 +27,7 @@ import (
 
 // recStream is a recording server stream for the streaming methods invoked in-process.
 type recStream[T any] struct {
+	mu   sync.Mutex
 	ctx  context.Context
 	sent int
 	msgs []*T
@@ -34,12 +36,21 @@ type recStream[T any] struct {
 }
 
 func (r *recStream[T]) Send(m *T) error {
+	r.mu.Lock()
 	r.sent++
+	n := r.sent
 	r.msgs = append(r.msgs, m)
+	r.mu.Unlock()
 	if r.onSend != nil {
-		r.onSend(r.sent)
+		r.onSend(n)
 	}
 	return nil
+}
+
+func (r *recStream[T]) all() []*T {
+	r.mu.Lock()
+	defer r.mu.Unlock()
+	return append([]*T(nil), r.msgs...)
 }
 func (r *recStream[T]) SetHeader(metadata.MD) error  { return nil }
 func (r *recStream[T]) SendHeader(metadata.MD) error { return nil }
